@@ -20,7 +20,7 @@
    Proof: instance of the generic walk over the code of all operations (HStepInv_proofs.step_keeps)
    with the world invariant "outside K nothing has changed, K is closed under the references stored
    in its live cells, all logged accesses / allocator arguments so far are in K". *)
-From CB Require Import Word Word_proofs PMem PItem HHeap HItems HOps HHist.
+From CB Require Import Word Word_proofs PMem PItem HHeap HItems HOps HHist HHist2 HHist3.
 From CB Require Import HRef_proofs HCont_proofs HRead_proofs HCopy_proofs HHist_proofs HStepInv_proofs HTrace_proofs.
 From Coq Require Import Lia ZArith List.
 Import ListNotations.
@@ -256,6 +256,11 @@ Theorem FG_step s o w r w' :
   FG w -> step refuse L s o w = Ret r w' -> FG w'.
 Proof. apply (step_keeps refuse FG K F_rd F_wr F_touch F_free F_malloc F_realloc L s o w r w'). Qed.
 
+Theorem FG_step3 s o w r w' :
+  (forall h a, In h (operands3 o) -> hget (base s) h = Some a -> K a) ->
+  FG w -> step3 refuse L s o w = Ret r w' -> FG w'.
+Proof. apply (step3_keeps refuse FG K F_rd F_wr F_touch F_free F_malloc F_realloc L s o w r w'). Qed.
+
 End Prims.
 
 (* ---------------- two runs: the same call in a world that agrees on K ---------------- *)
@@ -394,6 +399,17 @@ Proof.
   intros Hop Rw E.
   destruct (kp_step refuse K kp2 kp2_ret kp2_fail kp2_bind kp2_rd kp2_wr kp2_touch kp2_free kp2_malloc kp2_realloc
                     kp2_next_dep kp2_decref_fuel L s o Hop w1 w2 r w1' Rw E) as (w2' & E2 & R' & _).
+  exists w2'. split; assumption.
+Qed.
+
+Theorem Rel_step3 s o w1 w2 r w1' :
+  (forall h a, In h (operands3 o) -> hget (base s) h = Some a -> K a) ->
+  Rel w1 w2 -> step3 refuse L s o w1 = Ret r w1' ->
+  exists w2', step3 refuse L s o w2 = Ret r w2' /\ Rel w1' w2'.
+Proof.
+  intros Hop Rw E.
+  destruct (kp_step3 refuse K kp2 kp2_ret kp2_fail kp2_bind kp2_rd kp2_wr kp2_touch kp2_free kp2_malloc kp2_realloc
+                     kp2_next_dep kp2_decref_fuel L s o Hop w1 w2 r w1' Rw E) as (w2' & E2 & R' & _).
   exists w2'. split; assumption.
 Qed.
 
@@ -627,9 +643,131 @@ Example ex17_independent_run :
   end.
 Proof. vm_compute. repeat split. Qed.
 
+(* ------------------------------------------------------------------------------------------ *)
+(* the third layer of client calls (HHist3: op3 / step3, which embeds the two earlier layers)   *)
+(* ------------------------------------------------------------------------------------------ *)
+
+Definition op_reach3 (s : cstate3) (o : op3) (w : world) (b : addr) : Prop :=
+  exists h a, In h (operands3 o) /\ hget (base s) h = Some a /\ reach w a b.
+Definition footprint3 (s : cstate3) (o : op3) (w : world) (b : addr) : Prop :=
+  op_reach3 s o w b \/ next w <= b.
+
+Lemma op_reach3_closed s o w a rc n : op_reach3 s o w a -> heap w a = Some (CItem rc n) ->
+  (forall k, In k (node_kids n) -> op_reach3 s o w k) /\ (forall d, In d (node_blocks n) -> op_reach3 s o w d).
+Proof.
+  intros (h & p & Hh & Hp & R) E. split; intros x Hx; exists h, p; (split; [exact Hh|split; [exact Hp|]]).
+  - eapply reach_kid; eassumption.
+  - eapply reach_block; eassumption.
+Qed.
+
+Lemma FG_of_step3 refuse L s o w r w' : wf w -> step3 refuse L s o w = Ret r w' -> FG w (op_reach3 s o w) w'.
+Proof.
+  intros Hwf E.
+  assert (S0 : FG w (op_reach3 s o w) w) by (apply FG_start; [exact Hwf|apply op_reach3_closed]).
+  refine (FG_step3 w (op_reach3 s o w) (op_reach3_closed s o w) refuse L s o w r w' _ S0 E).
+  intros h a Hh Ha. left. exists h, a. split; [exact Hh|]. split; [exact Ha|]. apply reach_self.
+Qed.
+
+Theorem C17_step3_frame : forall refuse L s o w s' out w',
+  wf w -> step3 refuse L s o w = Ret (s', out) w' ->
+  next w <= next w' /\
+  forall b, b < next w -> ~ op_reach3 s o w b -> heap w' b = heap w b.
+Proof.
+  intros refuse L s o w s' out w' Hwf E.
+  destruct (FG_of_step3 refuse L s o w _ w' Hwf E) as (A & B & _). split; [exact A|].
+  intros b Hb Hn. apply B. intros [H|H]; [exact (Hn H)|lia].
+Qed.
+
+Theorem C17_step3_footprint : forall refuse L s o w s' out w',
+  wf w -> step3 refuse L s o w = Ret (s', out) w' ->
+  (exists acc, alog w' = acc ++ alog w /\ Forall (fun x => footprint3 s o w (acc_addr x)) acc) /\
+  (exists evs, trace w' = evs ++ trace w /\
+     Forall (fun e => (forall p, In p (ev_args e) -> footprint3 s o w p) /\
+                      (forall p, In p (ev_res e) -> next w <= p)) evs).
+Proof.
+  intros refuse L s o w s' out w' Hwf E.
+  destruct (FG_of_step3 refuse L s o w _ w' Hwf E) as (_ & _ & _ & D1 & D2). split; assumption.
+Qed.
+
+Theorem C17_step3_independent : forall refuse L s o w w2 s' out w',
+  wf w -> step3 refuse L s o w = Ret (s', out) w' ->
+  wf w2 -> next w2 = next w -> nreq w2 = nreq w ->
+  (forall b, op_reach3 s o w b -> heap w2 b = heap w b) ->
+  exists w2', step3 refuse L s o w2 = Ret (s', out) w2' /\
+    next w2' = next w' /\ nreq w2' = nreq w' /\
+    (forall b, footprint3 s o w b -> heap w2' b = heap w' b).
+Proof.
+  intros refuse L s o w w2 s' out w' Hwf E Hwf2 Hn Hq Ag.
+  assert (R0 : Rel w (op_reach3 s o w) w w2).
+  { split; [apply FG_start; [exact Hwf|apply op_reach3_closed]|]. split; [exact Hwf2|]. split; [exact Hn|]. split; [exact Hq|].
+    intros a [Ha|Ha]; [apply Ag; exact Ha|]. rewrite (Hwf a Ha). apply Hwf2. rewrite Hn. exact Ha. }
+  destruct (Rel_step3 w (op_reach3 s o w) (op_reach3_closed s o w) refuse L s o w w2 (s', out) w') as (w2' & E2 & R').
+  - intros h a Hh Ha. left. exists h, a. split; [exact Hh|]. split; [exact Ha|]. apply reach_self.
+  - exact R0.
+  - exact E.
+  - exists w2'. split; [exact E2|]. destruct R' as (_ & _ & C & D & Ag'). split; [exact C|]. split; [exact D|exact Ag'].
+Qed.
+
+Lemma run3_wf refuse L ops s outs w : run_hist3 refuse L ops s3_0 [] world0 = Ret (s, outs) w -> wf w.
+Proof. intros E. apply TrInv_wf. eapply (TrInv_run3 refuse L ops s3_0 [] world0); [apply TrInv_world0|exact E]. Qed.
+
+Theorem C17_history3_frame : forall refuse L pre o s outs w s' out w',
+  run_hist3 refuse L pre s3_0 [] world0 = Ret (s, outs) w ->
+  step3 refuse L s o w = Ret (s', out) w' ->
+  next w <= next w' /\
+  (forall b, b < next w -> ~ op_reach3 s o w b -> heap w' b = heap w b) /\
+  (exists acc, alog w' = acc ++ alog w /\ Forall (fun x => footprint3 s o w (acc_addr x)) acc) /\
+  (exists evs, trace w' = evs ++ trace w /\
+     Forall (fun e => (forall p, In p (ev_args e) -> footprint3 s o w p) /\
+                      (forall p, In p (ev_res e) -> next w <= p)) evs).
+Proof.
+  intros refuse L pre o s outs w s' out w' E1 E2. pose proof (run3_wf _ _ _ _ _ _ E1) as Hwf.
+  destruct (C17_step3_frame refuse L s o w s' out w' Hwf E2) as [A B].
+  destruct (C17_step3_footprint refuse L s o w s' out w' Hwf E2) as [C D]. auto.
+Qed.
+
+(* non-vacuity: two integers made by cbor_new_int8; cbor_set_uint8 on the first stores into its cell
+   and, by the theorem, leaves the second one alone *)
+Definition ex17c_pre : list op3 := [O3NewInt I8; O3NewInt I8; O3SetUint I8 1 9].
+Definition ex17c_sw : cstate3 * world :=
+  match run_hist3 never 8 ex17c_pre s3_0 [] world0 with Ret (s, _) w => (s, w) | Fault _ => (s3_0, world0) end.
+Example ex17c_pre_runs :
+  exists outs, run_hist3 never 8 ex17c_pre s3_0 [] world0 = Ret (fst ex17c_sw, outs) (snd ex17c_sw).
+Proof. eexists. vm_compute. reflexivity. Qed.
+Lemma ex17c_reach : forall b, reach (snd ex17c_sw) 1 b -> b = 1.
+Proof.
+  intros b R. induction R as [|b rc n c R IH E Hc|b rc n d R IH E Hd].
+  - reflexivity.
+  - subst b. vm_compute in E. injection E as <- <-. destruct Hc.
+  - subst b. vm_compute in E. injection E as <- <-. destruct Hd.
+Qed.
+Example ex17c_frame :
+  match step3 never 8 (fst ex17c_sw) (O3SetUint I8 0 300) (snd ex17c_sw) with
+  | Ret (s', out) w' =>
+      heap w' 2 = heap (snd ex17c_sw) 2 /\
+      heap w' 1 = Some (CItem 1 (NInt false I8 44)) /\ heap w' 2 = Some (CItem 1 (NInt false I8 9)) /\
+      unset (fst ex17c_sw) = [1] /\ unset s' = []
+  | Fault _ => False
+  end.
+Proof.
+  destruct (step3 never 8 (fst ex17c_sw) (O3SetUint I8 0 300) (snd ex17c_sw)) as [[s' out] w'|k] eqn:E.
+  2:{ vm_compute in E. discriminate E. }
+  split.
+  - destruct ex17c_pre_runs as [outs Epre].
+    destruct (C17_history3_frame never 8 ex17c_pre _ _ _ _ _ _ _ Epre E) as (_ & Fr & _).
+    apply Fr; [vm_compute; reflexivity|].
+    intros (h & a & Hh & Ha & R). cbn [operands3 In] in Hh. destruct Hh as [<-|[]].
+    vm_compute in Ha. injection Ha as <-. apply ex17c_reach in R. discriminate R.
+  - vm_compute in E. injection E as <- _ <-. vm_compute. repeat split.
+Qed.
+
 Print Assumptions C17_step_frame.
 Print Assumptions C17_step_independent.
 Print Assumptions C17_step_frame_live.
 Print Assumptions C17_step_footprint.
 Print Assumptions C17_disjoint_calls.
 Print Assumptions C17_history_frame.
+Print Assumptions C17_step3_frame.
+Print Assumptions C17_step3_footprint.
+Print Assumptions C17_step3_independent.
+Print Assumptions C17_history3_frame.
